@@ -476,3 +476,32 @@ func first(a, _ []byte) []byte { return a }
 //@   ensures[replaced] implies(!merge, (*ptr).pointer == n0 || fresh((*ptr).pointer))
 //@   ensures[merge_link] implies(merge, (*ptr).pointer == sP && (*ptr).tag == sT)
 //@   ensures[frame] implies(!merge || sT == 4, frame(n0, ptr.obj, (*ptr).pointer)) && implies(merge && sT != 4, frame(n0, ptr.obj, sP)) && frameSlot(ptr)
+
+// ---------------------------------------------------------------------------
+// Layer C: trees. WF1 is the typing part of the tree invariant: the root
+// reference is well typed, every inner node owned by the tree (ghost set inT)
+// satisfies its class invariant (which includes the typing of its children),
+// and every leaf owns a key of the recorded length inside one byte object.
+
+//@ func (*node).checkPrefix
+//@   requires n != nil && 0 <= depth && depth <= len(key)
+//@   ensures[bound] 0 <= result && result <= 10 && result <= n.prefixLen && result <= len(key) - depth
+//@   ensures[agree] forall(i, 0, 10, implies(i < result, n.prefix[i] == key[depth+i]))
+//@   ensures[maximal] result == min(min(n.prefixLen, 10), len(key) - depth) || n.prefix[result] != key[depth+result]
+//@   assigns nothing
+//@   loop 1 (idx)
+//@     invariant 0 <= idx && idx <= maxCmp && forall(i, 0, 10, implies(i < idx, n.prefix[i] == key[depth+i]))
+//@     decreases maxCmp - idx
+
+//@ func longestCommonPrefix
+//@   requires 0 <= depth
+//@   ensures[bound] 0 <= result && implies(depth <= min(len(key), len(other)), depth + result <= min(len(key), len(other))) && implies(depth > min(len(key), len(other)), result == 0)
+//@   ensures[agree] forall(i, depth, depth + result, key[i] == other[i])
+//@   ensures[maximal] depth + result >= min(len(key), len(other)) || key[depth+result] != other[depth+result]
+//@   assigns nothing
+//@   loop 1 (idx)
+//@     invariant depth <= idx && forall(i, depth, idx, key[i] == other[i]) && implies(depth <= maxCmp, idx <= maxCmp)
+//@     decreases maxCmp - idx
+
+//@ spec NodeOK(o) = implies(atype(o) == typeid(node4), Inv4(as(node4, o))) && implies(atype(o) == typeid(node16), Inv16(as(node16, o))) && implies(atype(o) == typeid(node48), Inv48(as(node48, o))) && implies(atype(o) == typeid(node256), Inv256(as(node256, o)))
+//@ spec rootOK(r) = r.pointer == nil || okRef(r)
